@@ -288,6 +288,8 @@ def run_scenario(sc: dict):
             await asyncio.gather(*tasks)
             # quiet period: faults have ceased (finite budget); bounded time to resolve
             quiet = sc.get("quiet", 4 * REQUEST_TIMEOUT_MS / 1000 + 20 * RETRY_BACKOFF_MS / 1000)
+            if sc["cls"] != "idem-long":
+                director.budget = 0        # "after faults cease": nothing new is injected during the quiet period
             pending = [f for f in futs.values() if not f.done()]
             if pending:
                 await asyncio.wait(pending, timeout=quiet)
